@@ -87,6 +87,7 @@ class C06(Check):
         "class with original_class, issubclass along the IR inheritance exactly, a column per public "
         "scalar/enum/datetime/JSON-list/custom-typed field whose SQLAlchemy type fits the annotation, a uselist=False relationship per reference (also to the DAO of an alternatively mapped class), a uselist=True "
         "relationship with its own association table per collection, nothing for underscore fields). For a "
+        "third of the cases the layer is generated a second time in the same process and must be identical; for a "
         "sixth of the cases the generation is repeated in two fresh processes with different PYTHONHASHSEED and "
         "the texts must be identical. Non-trivial: the model has inheritance and a relationship. Distinct = distinct IR."
     )
@@ -106,7 +107,7 @@ class C06(Check):
         plain = st.tuples(MI.model_ir(**kw), st.integers(0, 5))
         # a third of the models use a custom column type, an alternatively mapped class and a normally mapped subclass of one
         extra = st.tuples(MI.model_ir(extras=True, **kw), st.integers(0, 5))
-        return st.one_of(plain, plain, extra).map(lambda t: {"model": t[0], "determinism": t[1] == 0})
+        return st.one_of(plain, plain, extra).map(lambda t: {"model": t[0], "determinism": t[1] == 0, "regenerate": t[1] in (1, 2)})
 
     @staticmethod
     def column_type(kind, t, mod):
@@ -250,6 +251,20 @@ class C06(Check):
                         return bad("wrong_original_class", f"{n_}.original_class() is {dao.original_class()}")
                     if base and not issubclass(dao, getattr(gen, base)):
                         return bad("inheritance_not_mirrored", f"{n_} is not a subclass of {base}")
+            # ---- a second generation in this process (fresh ClassDiagram and ORMatic over the same classes)
+            if ir.get("regenerate"):
+                again = os.path.join(d, f"{gen_name}_again.py")
+                try:
+                    generate([clss[i] for i in model["order"]], again, mod if model.get("extras") else None)
+                    same = open(again).read() == open(gen_path).read()
+                except Exception as exc:
+                    return crash(exc, "second generation in the same process", classes=classes_, nontrivial=nontrivial, features=feats)
+                finally:
+                    if os.path.exists(again):
+                        os.remove(again)
+                if not same:
+                    return bad("regeneration_differs", "generating the layer a second time in the same process gives a different module")
+                classes_.append("regenerated_in_process")
             # ---- determinism across processes / hash seeds
             if ir["determinism"]:
                 texts = []
